@@ -24,6 +24,7 @@ func init() {
 			"F7 a verdict-returning function that records a job failure returns false afterwards, F8 a function replacing a live fork's metadata objects drops the cached metadata list, F9 every fork metadata object into which mrp writes _errors is cleared by the partial reset (one known finding: Fork.metadata). " +
 			"F10 a split that is submitted again stores a fresh chunk list first (while doChunks builds the list only when it is empty). " +
 			"Round 6: F11 a decode of _stage_defs into the pointer Fork.stageDefs is followed by a nil test; F12 preloaded chunks can reach verifyDef before they are stepped; F13 (= R7b) orphaned local nodes are reset at re-attach. " +
+			"F14 a non-zero time is stored into Metadata.notRunningSince only under IsZero() of that field (the first observation stands). " +
 			"NOT decided: error text naming the stage, retry classification, the Python adapter.",
 		Assumptions: commonAssumptions,
 	}
@@ -43,6 +44,7 @@ func runC06(c *an.Ctx) {
 	ruleF11(c)
 	ruleF12(c)
 	ruleOrphanReset(c, "F13")
+	ruleF14(c)
 }
 
 func existsCallOf(p *an.Prog, v ssa.Value, file string) bool {
